@@ -48,6 +48,13 @@ conc("C01", "Stateless model checking of the real containers recompiled (go buil
 conc("C02", "Stateless model checking for linearizability: every program of 2 threads x 1 call, 3 threads x 1 call and 2 threads x (2,1) calls (thorough: also 2 x 2) over each type's single-element alphabet and 3 initial contents, EVERY interleaving of their lock/unlock/clock operations under the controlled scheduler (unbounded; iterative preemption bounding only if a budget is hit, reported); each execution's outcome (every return value + final Size/contents) must equal the outcome of some one-at-a-time run of the same calls on the same implementation that respects program order and the observed real-time order (brute force over <=24 orders).",
      "stateless DFS over all interleavings under a controlled scheduler + brute-force linearizability against sequential runs", "DESIGN.md §3 C02, §2.2-2.3")
 
+conc("C17", "Stateless model checking of Memoize with x/sync/singleflight itself recompiled against the controlled runtime: programs of 2 threads x <=2 calls, 3 threads x 1 call and every sequential pattern up to length 4 (5) over keys {p,q}; the user function logs its executions, has latency 0/1/2 scheduling points and succeeds or fails by an explorer choice; every interleaving (unbounded for two threads, preemption bound 2-3 otherwise) incl. a clock thread for the expiring configuration and a program in which key q's computation parks forever. Oracle: per-key in-flight counter <= 1, every result traced to an execution that overlapped or preceded the call (an execution stays in flight until the Memoize call that started it returns, singleflight's documented joining window), errors never served to calls that start after the failed flight ended, no recomputation once a value was returned and not expired, keys never mixed or blocked.",
+     "stateless DFS over all interleavings under a controlled scheduler incl. singleflight internals; invariants over execution/call logs", "DESIGN.md §3 C17")
+conc("C18", "Exhaustive bounded enumeration under the controlled runtime: After/Before for every n in -2..8 x every number of calls 0..12 (int and int8 counters), Once for 1..5 calls with a non-expiring and an expiring cache entry (clock advance between calls is an explorer choice), Retry/RetryWithDelay for every n in -2..8 x EVERY success/failure pattern of the callback (Choose inside the callback), RetryWithDelay on the virtual clock (blocks on time.After; discrete-event rule). Oracle: per-call invocation counters, returned values, attempt count, last error, consecutive attempts >= delay apart.",
+     "exhaustive enumeration of n x call counts x callback outcome patterns (explorer choice points) on virtual time", "DESIGN.md §3 C18")
+conc("C20", "Stateless model checking on a virtual clock (wait = 5 units, clock moved in steps of 2 by a clock thread, so every call lands at every position relative to every deadline as an interleaving): Delay with Stop at every position; debounce bursts of 1..3 (5) calls with pauses and cancel at any position from one caller (every interleaving) and two callers; throttle with every script of <=4 (6) operations over {Call, Advance 2, Advance 6} + Cancel against a consumer calling Next x3 (every interleaving, permission stamps read exactly), and the concurrent family Call x c ‖ Next x n ‖ Next ‖ clock ‖ Cancel at preemption bound 2 (3); trailing on/off. Oracles are exact integer inequalities: never early, at most once per burst, not after cancel, last call does run, permissions >= one period apart, no Next true after Cancel, no deadlock.",
+     "stateless DFS over all interleavings of calls, clock steps and timer callbacks on virtual time; exact timing invariants", "DESIGN.md §3 C20")
+
 not_built = {}  # property -> reason (kept current while the framework is being built)
 props = [json.loads(l)["id"] for l in open(os.path.join(ROOT, "properties.jsonl"))]
 for p in props:
